@@ -190,8 +190,15 @@ Proof.
            ++ simpl. intros e H. rewrite Q. right; auto.
     + destruct (true && _); [discriminate|]. intros E; inversion E; subst s'. unfold set_thr.
       apply invC_move; auto; try (rewrite Pc; discriminate); discriminate.
-    + destruct (true && _); [discriminate|]. intros E; inversion E; subst s'. unfold set_thr.
-      apply invC_move; auto; try (rewrite Pc; discriminate); discriminate.
+    + (* OIsClosed *) intros E; inversion E; subst s'. unfold set_thr.
+      apply (invC_ret s i t (RIs (wclosed s)) (ch s) (received s)); auto; try (rewrite Pc; discriminate).
+      rewrite Pc. split; discriminate.
+    + (* OLen *) intros E; inversion E; subst s'. unfold set_thr.
+      apply (invC_ret s i t (RNum (List.length (buf (ch s)))) (ch s) (received s)); auto; try (rewrite Pc; discriminate).
+      rewrite Pc. split; discriminate.
+    + (* OCap *) intros E; inversion E; subst s'. unfold set_thr.
+      apply (invC_ret s i t (RNum (cap (ch s))) (ch s) (received s)); auto; try (rewrite Pc; discriminate).
+      rewrite Pc. split; discriminate.
   - (* SLocked *)
     intros E; inversion E; subst s'. unfold set_thr.
     apply invC_move; auto; try (rewrite Pc; discriminate); destruct (wclosed s); discriminate.
@@ -270,11 +277,6 @@ Proof.
     destruct X as [X1 X2 X3 X4 X5 X6 X7]. constructor; simpl in *; auto.
   - intros E; inversion E; subst s'. unfold set_thr.
     apply (invC_ret s i t RClosed (ch s) (received s)); auto; try (rewrite Pc; discriminate).
-    rewrite Pc. split; discriminate.
-  - intros E; inversion E; subst s'. unfold set_thr.
-    apply invC_move; auto; try (rewrite Pc; discriminate); discriminate.
-  - intros E; inversion E; subst s'. unfold set_thr.
-    apply (invC_ret s i t (RIs b) (ch s) (received s)); auto; try (rewrite Pc; discriminate).
     rewrite Pc. split; discriminate.
 Qed.
 
@@ -407,7 +409,9 @@ Proof.
     + destruct (lk && _); inversion E; subst; auto.
     + destruct (buf (ch s)); destruct (sendq (ch s)) as [|[? ?] ?]; try rewrite CC in E; inversion E; subst; simpl; auto.
     + destruct (lk && _); inversion E; subst; auto.
-    + destruct (lk && _); inversion E; subst; auto.
+    + inversion E; subst; auto.
+    + inversion E; subst; auto.
+    + inversion E; subst; auto.
   - rewrite CC in E. inversion E; subst; auto.
   - destruct (in_sendq i (sendq (ch s))); [rewrite CC in E|]; inversion E; subst; auto.
   - destruct (lk && _); inversion E; subst; auto.
